@@ -290,6 +290,9 @@ def pair_grid():
 def run(ctx):
     ctx.exhaustive("pair_grid", pair_grid(), body, "every ordered selection of <= 3 ports from a 10-shape catalogue")
     ctx.given("generated", port_lists(), body, quick=2500, thorough=250000)
+    if ctx.thorough and ctx.shard == 0:
+        from pbt.fuzz import driver
+        driver.run_stage(ctx, "c19_ports", runs=30000, max_len=4096)
 
 
 def replay(ctx, part, case):
